@@ -1110,11 +1110,22 @@ def _dict_dispatch(repo, fi, call):
     v = ds[0][0]
     table = key = None
     total = True
-    if isinstance(v, ast.Call) and isinstance(v.func, ast.Attribute) and v.func.attr == 'get' and isinstance(v.func.value, ast.Dict) \
+
+    def as_dict(e):
+        # a dict display, or a module-level name bound once to one
+        if isinstance(e, ast.Dict):
+            return e
+        if isinstance(e, ast.Name) and not U.local_defs(fi.node).get(e.id):
+            binds = [st.value for st in fi.module.tree.body if isinstance(st, ast.Assign)
+                     and any(isinstance(t, ast.Name) and t.id == e.id for t in st.targets)]
+            if len(binds) == 1 and isinstance(binds[0], ast.Dict):
+                return binds[0]
+        return None
+    if isinstance(v, ast.Call) and isinstance(v.func, ast.Attribute) and v.func.attr == 'get' and as_dict(v.func.value) is not None \
             and 1 <= len(v.args) <= 2 and (len(v.args) == 1 or (isinstance(v.args[1], ast.Constant) and v.args[1].value is None)):
-        table, key = v.func.value, v.args[0]
-    elif isinstance(v, ast.Subscript) and isinstance(v.value, ast.Dict):
-        table, key, total = v.value, v.slice, False
+        table, key = as_dict(v.func.value), v.args[0]
+    elif isinstance(v, ast.Subscript) and as_dict(v.value) is not None:
+        table, key, total = as_dict(v.value), v.slice, False
     if table is None:
         return None
     out = {}
